@@ -63,6 +63,11 @@ type sub05 struct {
 	// patient: the client lets time pass (every armed timer expires) between a
 	// sync_response and its next trigger / its half-close
 	patient bool
+	// abandoned: before this call an EARLIER client asked for the same paths
+	// and went away at a moment the scheduler chooses (possibly in the middle of
+	// its snapshot walk); whatever that abandoned call left behind, the writer
+	// and this call are not affected
+	abandoned bool
 }
 
 func (s sub05) String() string {
@@ -72,6 +77,9 @@ func (s sub05) String() string {
 	}
 	if len(s.writer) > 0 {
 		pt += " || W(t1)=" + scriptName(s.writer)
+	}
+	if s.abandoned {
+		pt += " after an earlier client of the same paths went away mid-call"
 	}
 	return fmt.Sprintf("%s target=%s prefix=%s:%s paths=%v polls=%d%s", strings.ToLower(s.mode.String()), s.target, s.pOrigin, s.pElems, s.paths, s.polls, pt)
 }
@@ -180,6 +188,11 @@ func configs05(tier string) []xplore.Config {
 			add(sub05{target: "t1", paths: []string{p}, mode: pb.SubscriptionList_POLL, polls: 1, writer: sc}, wb-1)
 		}
 	}
+	// an earlier client that went away in the middle of its call, then a writer
+	// creating a new leaf in the walked container, then this call
+	for _, p := range [][]string{{"a"}, {"a/*"}, {"*"}, {"c/*"}} {
+		add(sub05{target: "t1", paths: p, mode: pb.SubscriptionList_ONCE, writer: []wop{{"upd", "a/z"}}, abandoned: true}, wb-1)
+	}
 	// an all-targets call while one target is being REMOVED: the leaves of the
 	// targets that stay are matched for the whole call and must all be returned
 	for _, sc := range [][]wop{{{"remove", ""}}, {{"upd", "a/z"}, {"remove", ""}}} {
@@ -213,6 +226,22 @@ func run05(cfg xplore.Config, ch vrt.Chooser, trace bool) (xplore.Outcome, *vrt.
 			}
 			w.c.GnmiUpdate(&pb.Notification{Timestamp: 1, Prefix: &pb.Path{Target: l.target, Origin: l.origin}, Update: []*pb.Update{{Path: p, Val: ival(l.val)}}})
 			w.noteHeld(l.target, strings.Join(l.index(), "/"), l.val)
+		}
+		if s.abandoned {
+			ea := s
+			ea.mode, ea.polls = pb.SubscriptionList_POLL, 1
+			a := newStream(subSpec{target: s.target, mode: pb.SubscriptionList_POLL})
+			a.req = ea.request()
+			vrt.GoNamed("earlier-rpc", func() {
+				a.status = w.srv.Subscribe(a)
+				a.returned = true
+			})
+			vrt.GoNamed("earlier-client-leaves", func() { a.cancel() })
+			vrt.Idle()
+			if !a.returned || !vrt.AllDone() {
+				viol(&out, "rpc-did-not-end", "%s: the earlier client went away but its call did not end: %v", s, vrt.ParkedInfo())
+				return
+			}
 		}
 		st := newStream(subSpec{target: s.target, mode: s.mode})
 		st.req = s.request()
